@@ -1109,6 +1109,8 @@ class Compiler:
         return SM(obj.model, "get")
       c, raw = self.find_method(obj.cls, attr)
       if raw is None:
+        if self.auto_bind(obj, attr):
+          return self.get_attr(base, attr)
         raise TranslationError("attribute %s of %s is not bound by the scenario" % (attr, obj.name))
       return self.bind_class_attr(c, raw, base, attr)
     if isinstance(base, SSuper):
@@ -1165,6 +1167,37 @@ class Compiler:
       raw = getattr(base.cls, attr)
       return self.lift(raw)
     raise TranslationError("attribute %s of %r (%s)" % (attr, base, self.cur_src))
+
+  def auto_bind(self, obj, attr):
+    """an instance attribute the scenario did not foresee (code that gained a lock, a flag, a counter): bound from a real instance of the
+    class by the kind of value it holds there - a lock becomes a lock model, an Event an Event model, None / bool / small int / str a
+    shared cell whose loads and stores are operations.  Recorded in sc.auto_bound so that the replay harness proxies the same attribute."""
+    import threading
+    factory = self.sc.proto_factories.get(obj.cls)
+    if factory is None:
+      return False
+    key = ("proto", obj.cls)
+    if key not in self.sc.constructed:
+      self.sc.constructed[key] = factory()
+    proto = self.sc.constructed[key]
+    if attr not in vars(proto):
+      return False
+    v = vars(proto)[attr]
+    name = "%s.%s" % (obj.name, attr)
+    if isinstance(v, (type(threading.RLock()), type(threading.Lock()))):
+      m = self.sc.add(M.MRLock(name))
+    elif isinstance(v, threading.Event):
+      m = self.sc.add(M.MEvent(name, 1 if v.is_set() else 0))
+    elif v is None or isinstance(v, bool) or (isinstance(v, int) and 0 <= v < 16):
+      m = self.sc.add(M.MAttr(name, NONE if v is None else int(v)))
+    elif isinstance(v, str):
+      m = self.sc.add(M.MAttr(name, self.sc.strings.code(v)))
+      m.typ = "str"
+    else:
+      return False
+    obj.attrs[attr] = m
+    self.sc.auto_bound.append((obj.name, attr, m.name, m.cls))
+    return True
 
   def bind_class_attr(self, c, raw, self_val, attr):
     if isinstance(raw, staticmethod):
